@@ -63,7 +63,9 @@ void World::opEnc(const Item& op)
     Node& n = nodeOf(op);
     if (!n.enc)
         return;
-    size_t maxB = static_cast<size_t>(std::min<int64_t>(std::max<int64_t>(25, op.get("max", 1500)), 65559));
+    // C07/C08 quantify over max <= 65535+24; C01/C10 put no upper bound on it
+    const int64_t maxLimit = (is("C07") || is("C08") || is("C09")) ? 65559 : 400000;
+    size_t maxB = static_cast<size_t>(std::min<int64_t>(std::max<int64_t>(25, op.get("max", 1500)), maxLimit));
     size_t minB = static_cast<size_t>(std::min<int64_t>(std::max<int64_t>(0, op.get("min", 0)), static_cast<int64_t>(maxB)));
     const uint8_t ver = static_cast<uint8_t>(std::max<int64_t>(1, op.get("ver", 1) & 0xFF));
     const int mode = static_cast<int>(op.get("mode", 0));
@@ -500,6 +502,8 @@ void World::opRaw(const Item& op)
                     body[off] = static_cast<uint8_t>(m.get("ilen"));
                 else
                     wire::wr16(body.data() + off, static_cast<uint16_t>(m.get("ilen")));
+                for (int64_t z = 0; z < m.get("izero", 0) && off + width + static_cast<size_t>(z) < body.size(); ++z)
+                    body[off + width + static_cast<size_t>(z)] = 0;
             }
         }
         wire::MsgHdr mh;
